@@ -1,0 +1,218 @@
+//! Verification hooks for the shrex codecs (compiled only with `--cfg eigerco_lumina_verif`).
+//!
+//! Thin public wrappers around the crate-private [`RequestCodec`] / [`ResponseCodec`]
+//! implementations for `Row`, `Sample`, `ExtendedDataSquare` and `NamespaceData`, and around
+//! `EdsNotification::deserialize_and_validate` of the pool tracker. Nothing here changes the
+//! behaviour of the wrapped code; only public types appear in the signatures.
+
+use celestia_types::eds::{EdsId, ExtendedDataSquare};
+use celestia_types::hash::Hash;
+use celestia_types::namespace_data::{NamespaceData, NamespaceDataId};
+use celestia_types::row::{Row, RowId};
+use celestia_types::sample::{Sample, SampleId};
+use celestia_types::{AppVersion, DataAvailabilityHeader, ExtendedHeader};
+
+use super::{CodecError, RequestCodec, ResponseCodec};
+use crate::p2p::shrex::pool_tracker::EdsNotification;
+
+/// Public mirror of the crate-private `CodecError`.
+#[derive(Debug, Clone, PartialEq, Eq)]
+pub enum ShrexCodecError {
+    /// `CodecError::RequestDecode`
+    RequestDecode(String),
+    /// `CodecError::ResponseDecode`
+    ResponseDecode(String),
+    /// `CodecError::ResponseVerification`
+    ResponseVerification(String),
+}
+
+impl std::fmt::Display for ShrexCodecError {
+    fn fmt(&self, f: &mut std::fmt::Formatter<'_>) -> std::fmt::Result {
+        match self {
+            ShrexCodecError::RequestDecode(s) => write!(f, "Request decode failed: {s}"),
+            ShrexCodecError::ResponseDecode(s) => write!(f, "Response decode failed: {s}"),
+            ShrexCodecError::ResponseVerification(s) => {
+                write!(f, "Response verification failed: {s}")
+            }
+        }
+    }
+}
+
+impl std::error::Error for ShrexCodecError {}
+
+impl From<CodecError> for ShrexCodecError {
+    fn from(e: CodecError) -> Self {
+        match e {
+            CodecError::RequestDecode(s) => ShrexCodecError::RequestDecode(s),
+            CodecError::ResponseDecode(s) => ShrexCodecError::ResponseDecode(s),
+            CodecError::ResponseVerification(s) => ShrexCodecError::ResponseVerification(s),
+        }
+    }
+}
+
+fn decode_with<T: ResponseCodec>(
+    raw: &[u8],
+    req: &T::Request,
+    dah: &DataAvailabilityHeader,
+    app_version: AppVersion,
+) -> Result<T, ShrexCodecError> {
+    T::decode_and_verify(raw, req, dah, app_version).map_err(Into::into)
+}
+
+// ---------------------------------------------------------------- responses: encode
+
+/// `<ExtendedDataSquare as ResponseCodec>::encode` (row-major original data square).
+pub fn shrex_encode_eds(eds: &ExtendedDataSquare) -> Vec<u8> {
+    ResponseCodec::encode(eds)
+}
+
+/// `<Row as ResponseCodec>::encode` (length-delimited `shwap.Row`, left half).
+pub fn shrex_encode_row(row: &Row) -> Vec<u8> {
+    ResponseCodec::encode(row)
+}
+
+/// `<Sample as ResponseCodec>::encode` (length-delimited `shwap.Sample`).
+pub fn shrex_encode_sample(sample: &Sample) -> Vec<u8> {
+    ResponseCodec::encode(sample)
+}
+
+/// `<NamespaceData as ResponseCodec>::encode` (stream of length-delimited
+/// `shwap.RowNamespaceData`).
+pub fn shrex_encode_namespace_data(data: &NamespaceData) -> Vec<u8> {
+    ResponseCodec::encode(data)
+}
+
+// ---------------------------------------------------------------- responses: decode_and_verify
+// `*_with` = exact mirror of the trait method; the short form derives the DAH and app version
+// from a header the way `shrex::client` does (`header.dah`, `header.app_version()`).
+
+/// `<ExtendedDataSquare as ResponseCodec>::decode_and_verify`.
+pub fn shrex_decode_and_verify_eds_with(
+    raw: &[u8],
+    req: &EdsId,
+    dah: &DataAvailabilityHeader,
+    app_version: AppVersion,
+) -> Result<ExtendedDataSquare, ShrexCodecError> {
+    decode_with::<ExtendedDataSquare>(raw, req, dah, app_version)
+}
+
+/// EDS response decoded against `header` (request id = the header's height).
+pub fn shrex_decode_and_verify_eds(
+    raw: &[u8],
+    header: &ExtendedHeader,
+) -> Result<ExtendedDataSquare, String> {
+    let req = EdsId::new(header.height()).map_err(|e| e.to_string())?;
+    decode_with::<ExtendedDataSquare>(raw, &req, &header.dah, header.app_version())
+        .map_err(|e| e.to_string())
+}
+
+/// `<Row as ResponseCodec>::decode_and_verify`.
+pub fn shrex_decode_and_verify_row_with(
+    raw: &[u8],
+    req: &RowId,
+    dah: &DataAvailabilityHeader,
+    app_version: AppVersion,
+) -> Result<Row, ShrexCodecError> {
+    decode_with::<Row>(raw, req, dah, app_version)
+}
+
+/// Row response decoded against `header`.
+pub fn shrex_decode_and_verify_row(
+    raw: &[u8],
+    req: &RowId,
+    header: &ExtendedHeader,
+) -> Result<Row, String> {
+    decode_with::<Row>(raw, req, &header.dah, header.app_version()).map_err(|e| e.to_string())
+}
+
+/// `<Sample as ResponseCodec>::decode_and_verify`.
+pub fn shrex_decode_and_verify_sample_with(
+    raw: &[u8],
+    req: &SampleId,
+    dah: &DataAvailabilityHeader,
+    app_version: AppVersion,
+) -> Result<Sample, ShrexCodecError> {
+    decode_with::<Sample>(raw, req, dah, app_version)
+}
+
+/// Sample response decoded against `header`.
+pub fn shrex_decode_and_verify_sample(
+    raw: &[u8],
+    req: &SampleId,
+    header: &ExtendedHeader,
+) -> Result<Sample, String> {
+    decode_with::<Sample>(raw, req, &header.dah, header.app_version()).map_err(|e| e.to_string())
+}
+
+/// `<NamespaceData as ResponseCodec>::decode_and_verify`.
+pub fn shrex_decode_and_verify_namespace_data_with(
+    raw: &[u8],
+    req: &NamespaceDataId,
+    dah: &DataAvailabilityHeader,
+    app_version: AppVersion,
+) -> Result<NamespaceData, ShrexCodecError> {
+    decode_with::<NamespaceData>(raw, req, dah, app_version)
+}
+
+/// NamespaceData response decoded against `header`.
+pub fn shrex_decode_and_verify_namespace_data(
+    raw: &[u8],
+    req: &NamespaceDataId,
+    header: &ExtendedHeader,
+) -> Result<NamespaceData, String> {
+    decode_with::<NamespaceData>(raw, req, &header.dah, header.app_version())
+        .map_err(|e| e.to_string())
+}
+
+// ---------------------------------------------------------------- requests
+
+/// `<RowId as RequestCodec>::encode`.
+pub fn shrex_encode_row_request(id: &RowId) -> Vec<u8> {
+    RequestCodec::encode(id)
+}
+
+/// `<RowId as RequestCodec>::decode`.
+pub fn shrex_decode_row_request(raw: &[u8]) -> Result<RowId, ShrexCodecError> {
+    <RowId as RequestCodec>::decode(raw).map_err(Into::into)
+}
+
+/// `<SampleId as RequestCodec>::encode`.
+pub fn shrex_encode_sample_request(id: &SampleId) -> Vec<u8> {
+    RequestCodec::encode(id)
+}
+
+/// `<SampleId as RequestCodec>::decode`.
+pub fn shrex_decode_sample_request(raw: &[u8]) -> Result<SampleId, ShrexCodecError> {
+    <SampleId as RequestCodec>::decode(raw).map_err(Into::into)
+}
+
+/// `<EdsId as RequestCodec>::encode`.
+pub fn shrex_encode_eds_request(id: &EdsId) -> Vec<u8> {
+    RequestCodec::encode(id)
+}
+
+/// `<EdsId as RequestCodec>::decode`.
+pub fn shrex_decode_eds_request(raw: &[u8]) -> Result<EdsId, ShrexCodecError> {
+    <EdsId as RequestCodec>::decode(raw).map_err(Into::into)
+}
+
+/// `<NamespaceDataId as RequestCodec>::encode`.
+pub fn shrex_encode_namespace_data_request(id: &NamespaceDataId) -> Vec<u8> {
+    RequestCodec::encode(id)
+}
+
+/// `<NamespaceDataId as RequestCodec>::decode`.
+pub fn shrex_decode_namespace_data_request(
+    raw: &[u8],
+) -> Result<NamespaceDataId, ShrexCodecError> {
+    <NamespaceDataId as RequestCodec>::decode(raw).map_err(Into::into)
+}
+
+// ---------------------------------------------------------------- shrex-sub notification
+
+/// `pool_tracker::EdsNotification::deserialize_and_validate`; `Ok((height, data_hash))`.
+pub fn eds_notification_deserialize_and_validate(data: &[u8]) -> Result<(u64, Hash), String> {
+    EdsNotification::deserialize_and_validate(data)
+        .map(|n| (n.height, n.data_hash))
+        .map_err(|e| e.to_string())
+}
